@@ -116,6 +116,10 @@ type params struct {
 	// has spare capacity (built with append, as such slices are); CtxString likewise a shared string
 	CtxFields bool
 	Fast      bool // fastCaller=true: every line's file:line comes out of the shared call-site cache, cold when the goroutines start
+	// Prepared: every event's field slice is built once, before the goroutines start, and spread into
+	// the call (log.Info(ctx, tag, fs...)) in both phases: the slice is the caller's, and the line of
+	// the second call with it is the line of the first
+	Prepared bool
 }
 
 func (p params) key() string { return fmt.Sprintf("%+v", p) }
@@ -153,6 +157,7 @@ func genParams(t *rapid.T) params {
 	p.Yield = rapid.Bool().Draw(t, "yield")
 	p.CtxFields = rapid.Bool().Draw(t, "ctxFields")
 	p.Fast = rapid.Bool().Draw(t, "fastCaller")
+	p.Prepared = rapid.Bool().Draw(t, "preparedFields")
 	return p
 }
 
@@ -263,9 +268,24 @@ func logOne(e event) {
 	}
 	// "ctl": control characters that differ from goroutine to goroutine (their \u00XX escapes are
 	// produced while other goroutines produce theirs)
-	ctl := string([]byte{byte(1 + e.g%7), 'x', byte(0x10 + (e.g+e.seq)%15), 0x7f})
-	log.Info(context.WithValue(context.Background(), evKey{}, e), tg, log.String("ctl", ctl), log.Ints("pre", []int{e.g, e.seq}), log.Object("obj", log.Int("g", e.g), log.Strings("s", []string{"x"})),
-		log.Int("g", e.g), log.Int("seq", e.seq), log.Int("len", len(e.fill)), log.String("fill", e.fill), log.Uint("crc", e.crc))
+	ctl := ctlOf(e)
+	fs, ok := prepared[[2]int{e.g, e.seq}]
+	if !ok {
+		fs = fieldsOf(e, ctl)
+	}
+	log.Info(context.WithValue(context.Background(), evKey{}, e), tg, fs...)
+}
+
+// prepared: field slices built before the goroutines start (read-only afterwards), by (g, seq)
+var prepared map[[2]int][]log.Field
+
+func ctlOf(e event) string {
+	return string([]byte{byte(1 + e.g%7), 'x', byte(0x10 + (e.g+e.seq)%15), 0x7f})
+}
+
+func fieldsOf(e event, ctl string) []log.Field {
+	return []log.Field{log.String("ctl", ctl), log.Ints("pre", []int{e.g, e.seq}), log.Object("obj", log.Int("g", e.g), log.Strings("s", []string{"x"})),
+		log.Int("g", e.g), log.Int("seq", e.seq), log.Int("len", len(e.fill)), log.String("fill", e.fill), log.Uint("crc", e.crc)}
 }
 
 var lineRe = regexp.MustCompile(`\bg"?[=:](\d+)(?:\|\||,)"?seq"?[=:](\d+)(?:\|\||,)"?len"?[=:](\d+)(?:\|\||,)"?fill"?[=:]"?([a-z]*)"?(?:\|\||,)"?crc"?[=:](\d+)\}?$`)
@@ -390,6 +410,17 @@ func runCase(p params, dir string) error {
 			total++
 		}
 	}
+	prepared = nil
+	if p.Prepared {
+		prepared = map[[2]int][]log.Field{}
+		for g := range events {
+			for _, e := range events[g] {
+				prepared[[2]int{e.g, e.seq}] = fieldsOf(e, ctlOf(e))
+			}
+		}
+		vk.Class("fields:prepared-slice-spread-twice")
+	}
+	defer func() { prepared = nil }()
 	read := func() []byte {
 		if p.fileSink() {
 			return readDir(dir)
